@@ -147,4 +147,76 @@ theorem run_mono (files : Files) :
       · rename_i c hf
         exact run_mono files n _ _ ks h
 
+/-! ### the rank exists: the INCLUDE depth of a file's one-piece text -/
+
+/-- `Expands` with the INCLUDE depth of the one-piece text. -/
+inductive ExpandsD (files : Files) : Nat → List Item → List Nat → Prop
+  | nil : ExpandsD files 0 [] []
+  | kw {d k : Nat} {r : List Item} {ks : List Nat} : ExpandsD files d r ks → ExpandsD files d (.kw k :: r) (k :: ks)
+  | endinc {r : List Item} : ExpandsD files 0 (.endinc :: r) []
+  | inc {dc dr f : Nat} {c r : List Item} {a b : List Nat} :
+      files f = some c → ExpandsD files dc c a → ExpandsD files dr r b →
+      ExpandsD files (max (dc + 1) dr) (.inc f :: r) (a ++ b)
+
+theorem expandsD_of_expands {files : Files} {l : List Item} {ks : List Nat} (h : Expands files l ks) :
+    ∃ d, ExpandsD files d l ks := by
+  induction h with
+  | nil => exact ⟨0, .nil⟩
+  | kw _ ih => obtain ⟨d, hd⟩ := ih; exact ⟨d, .kw hd⟩
+  | endinc => exact ⟨0, .endinc⟩
+  | inc hf _ _ ihc ihr => obtain ⟨dc, hc⟩ := ihc; obtain ⟨dr, hr⟩ := ihr; exact ⟨_, .inc hf hc hr⟩
+
+theorem expandsD_depth_unique {files : Files} {d : Nat} {l : List Item} {ks : List Nat} (h : ExpandsD files d l ks) :
+    ∀ {d' : Nat} {ks' : List Nat}, ExpandsD files d' l ks' → d = d' := by
+  induction h with
+  | nil => intro d' ks' h'; cases h'; rfl
+  | kw _ ih => intro d' ks' h'; cases h' with | kw h'' => exact ih h''
+  | endinc => intro d' ks' h'; cases h'; rfl
+  | inc hf _ _ ihc ihr =>
+    intro d' ks' h'
+    cases h' with
+    | inc hf' hc' hr' =>
+      rw [hf] at hf'; cases hf'
+      rw [ihc hc', ihr hr']
+
+theorem expandsD_inc_live {files : Files} {d : Nat} {l : List Item} {ks : List Nat} (h : ExpandsD files d l ks) :
+    ∀ g, Item.inc g ∈ live l → ∃ c dg a, files g = some c ∧ ExpandsD files dg c a ∧ dg < d := by
+  induction h with
+  | nil => intro g hg; simp [live] at hg
+  | kw _ ih => intro g hg; simp [live] at hg; exact ih g hg
+  | endinc => intro g hg; simp [live] at hg
+  | @inc dc dr f c r a b hf hc _ _ ihr =>
+    intro g hg
+    simp [live] at hg
+    rcases hg with rfl | hg
+    · exact ⟨c, dc, a, hf, hc, by omega⟩
+    · obtain ⟨c', dg, a', h1, h2, h3⟩ := ihr g hg
+      exact ⟨c', dg, a', h1, h2, by omega⟩
+
+open Classical in
+/-- the INCLUDE depth of the one-piece text of file `f` (0 when there is none). -/
+noncomputable def depthOf (files : Files) (f : Nat) : Nat :=
+  if h : ∃ d, ∃ c ks, files f = some c ∧ ExpandsD files d c ks then Classical.choose h else 0
+
+theorem depthOf_eq {files : Files} {f d : Nat} {c : List Item} {ks : List Nat}
+    (hf : files f = some c) (hd : ExpandsD files d c ks) : depthOf files f = d := by
+  have hex : ∃ d, ∃ c ks, files f = some c ∧ ExpandsD files d c ks := ⟨d, c, ks, hf, hd⟩
+  unfold depthOf
+  rw [dif_pos hex]
+  obtain ⟨c', ks', hf', hd'⟩ := Classical.choose_spec hex
+  rw [hf] at hf'; cases hf'
+  exact expandsD_depth_unique hd' hd
+
+theorem acyclic_depthOf (files : Files) : Acyclic files (depthOf files) := by
+  intro f c hf ⟨ks, hks⟩ g hg
+  obtain ⟨d, hd⟩ := expandsD_of_expands hks
+  obtain ⟨cg, dg, a, hfg, hdg, hlt⟩ := expandsD_inc_live hd g hg
+  rw [depthOf_eq hf hd, depthOf_eq hfg hdg]; exact hlt
+
+theorem run_complete_full (files : Files) (root : Nat) (items : List Item) (ks : List Nat)
+    (hroot : files root = some items) (h : Expands files items ks) :
+    ∃ fuel, run files fuel [(root, items)] [] = some ks :=
+  run_complete files (depthOf files) (acyclic_depthOf files) root items ks
+    (acyclic_depthOf files root items hroot ⟨ks, h⟩) h
+
 end OpmVerif.IncStack
